@@ -138,6 +138,10 @@ extern double cs_vector_wiggle;
 /* tabulated parameters get a grid with the first calibration frequency as
    an interior point and the other calibration frequencies between points */
 extern int cs_vector_on_cal;
+/* cs_make_params first creates this many unrelated scalar parameters (and
+   leaves them), so that the scenario's handles start at 3 + cs_param_fillers:
+   0 by default */
+extern int cs_param_fillers;
 extern int cs_make_params(vnacal_t *vcp, cs_scenario *sc);
 extern void cs_delete_params(vnacal_t *vcp, cs_scenario *sc);
 
